@@ -2,48 +2,72 @@
 
 Two halves (DESIGN.md section 6, C11).
 
-* Provable half (coq/Props/C11.v): for the operations that have a Gallina model
-  in this development (shift, stretch, transpose, sustain, trim/extract, ...) the
-  theorems `wf_preserved_<op>` state that a well-formed input gives a
-  well-formed output; they are corollaries of the models verified and tied to
-  the code by the C01/C02/C10/C13/C14 checks, and are re-checked here.
-* Runtime half (this module): Python aliasing / protobuf copy semantics are not
-  expressible in a pure model without deciding the aliasing question by hand,
-  so argument non-mutation (also on the raising paths), call-twice determinism
-  and well-formedness of the *real* result are monitored on every generated
-  call of every one of the 20 documented operations.
+* Provable half (coq/Props/C11.v, 50-odd statements): `C11_wf_preserved_<op>` — a well-formed input
+  (Model/Wf.v: 0 <= start <= end <= total_time for every note, no negative event time, total_time >= 0)
+  and legal arguments give a well-formed result — and `C11_no_invention_<op>` — every returned note is the
+  image of an input note under the operation's per-note map — for shift, stretch, remove_redundant_data,
+  concatenate, merge, repeat, adjust, rectify, trim, extract, _extract_subsequences, the four splitters,
+  transpose, sustain, expand_section_groups, quantize / quantize_absolute.  They are proved about the
+  models that the C01/C02/C10/C13/C14 checks tie to the code (imported read-only) plus the small models of
+  merge_sequences / expand_section_groups in coq/Model/WfOps.v.
+* Model side of the check (coq/Run/C11.v): (1) the Coq predicate `wfb` / `qwfb` is evaluated on the wire
+  image of every sequence the REAL operation returned and compared with the Python predicate, so the
+  predicate of the theorems is the predicate that is measured; (2) the operation is dispatched to the
+  imported model and status, number of results and per result (wf verdict, note count, total_time) are
+  compared with the real call.
+* Runtime half (this module): Python aliasing / protobuf copy semantics are not expressible in a pure
+  model without deciding the aliasing question by hand, so argument non-mutation (also on the raising
+  paths), call-twice determinism, non-aliasing and well-formedness / no-invented-note of the *real* result
+  are monitored on every generated call of every one of the 20 operations.
 
-`impl` returns a canonical record of what was observed; `oracle` is the
-property statement itself evaluated on that record.
+`impl` returns a canonical record of what was observed; `oracle` is the property statement itself
+evaluated on that record.
 """
 import copy
+import hashlib
+import json
 import random
+import struct
 
 from vt import nsio
 
 ID = 'C11'
 META = {
     'level_text': (
-        'Proof (Coq) for the well-formedness half on the modelled operations: wf_preserved_<op> theorems, for ALL '
-        'well-formed sequences and all legal arguments, about the Gallina models of shift / stretch / transpose / '
-        'sustain / trim / extract / quantize that the C01, C02, C10, C13 and C14 checks tie to the code; '
-        'the non-mutation, raise-path and call-twice halves are a runtime monitor over every generated call of all '
-        '20 documented operations (partial: monitored, not proved).'),
+        'Proof (Coq) for the well-formedness and no-invented-note half: C11_wf_preserved_<op> / C11_no_invention_<op>, '
+        'for ALL well-formed sequences and all legal arguments, for shift, stretch, remove_redundant_data, '
+        'concatenate, merge, repeat, adjust (every time function), rectify, trim, extract, every piece of '
+        '_extract_subsequences and of the four splitters, transpose, sustain (no no-overlap hypothesis), '
+        'expand_section_groups and both quantizers, about the Gallina models that the C01, C02, C10, C13 and C14 '
+        'checks tie to the code (merge / expand: small models of this property, tied here); the Coq predicate is '
+        'evaluated on every real result and compared with the monitor\'s. The non-mutation, raise-path, '
+        'call-twice and non-aliasing half is a runtime monitor over every generated call of all 20 operations '
+        '(partial: monitored, not proved).'),
     'level_note': (
         'PARTIAL. Python aliasing and protobuf copy semantics are outside any pure Gallina model: argument '
-        'byte-for-byte non-mutation (including when the operation raises) and same-result-when-called-again are '
-        'checked at run time on N generated calls (N in evidence), not proved. Trusted: Coq kernel; the models of the '
-        'other properties; protobuf deterministic serialisation as the equality on messages.'),
+        'byte-for-byte non-mutation (including when the operation raises), same-result-when-called-again and '
+        'result-does-not-alias-argument are checked at run time on N generated calls (N = evaluations in '
+        'evidence), not proved. The well-formedness theorems are about hand-written models: exact-tick '
+        'arithmetic (floats only in the quantizers, bit-exact), tied to the code by differential testing here '
+        '(status, number of results, wf verdict, note count, total_time) and, field by field, by the C01 / C02 / '
+        'C10 / C13 / C14 checks. Trusted: Coq kernel; those models; protobuf deterministic serialisation as the '
+        'equality on messages.'),
 }
-RULE = ('one case = (operation, well-formed NoteSequence with every repeated field populated, arguments incl. arguments '
-        'that make the operation raise); non-trivial when the input has notes and at least one other repeated field; '
-        'distinct by hash of the canonical case')
+RULE = ('one case = (operation, well-formed NoteSequence with every repeated field populated incl. section groups and '
+        'metadata, arguments incl. arguments that drive the operation into each of its documented errors; a few '
+        'ill-formed inputs only to reach NegativeTimeError); non-trivial when the input has notes and at least one '
+        'other repeated field; distinct by hash of the canonical case')
 ASSUMPTIONS = [
     'SerializeToString(deterministic=True) equality is byte-for-byte equality of messages',
     'time functions passed to adjust_notesequence_times are pure',
+    'generated times are multiples of 2^-40 s below 2^12 s, on which the float arithmetic of the operations is '
+    'exact (model side; stretch by k/2 or k/4 and rectify leave the grid: total_time is then not compared)',
+    'the well-formedness clause is evaluated only for well-formed arguments (the property\'s hypothesis)',
 ]
+TRUSTED = ['order-preserving float code (struct pack) used to send real results to the Coq predicate']
 
 T = nsio.QUARTER_SEC
+CHORDS = nsio.CHORDS
 
 OPS = ['trim', 'extract', 'split_hop', 'split_list', 'split_time_changes', 'split_silence', 'shift', 'stretch',
        'transpose', 'quantize_rel', 'quantize_abs', 'sustain', 'concatenate', 'merge', 'repeat', 'expand',
@@ -231,16 +255,202 @@ def impl(case):
         except Exception:  # noqa
             pass
     fresh = _build(case)
-    wfp = _wf_problems(op, fresh, outs1) if exc1 is None else []
-    return [exc1 or 'OK', mutated or mutated2, same, alias, wfp, len(outs1)]
+    # "given a well-formed input": the well-formedness clause is only claimed for well-formed arguments
+    # (the generator emits a few ill-formed ones to reach NegativeTimeError; non-mutation still applies)
+    wfp = _wf_problems(op, fresh, outs1) if exc1 is None and all(_py_wfb(x) for x in fresh) else []
+    # model side: what Run/C11.v is compared with (the results were edited by the alias probe above:
+    # outs1 is untouched, outs2 was edited)
+    pred = [[_py_wfb(r), _py_qwfb(r)] for r in outs1]
+    obs = [STATUS.get(exc1 or 'OK', exc1), [[_py_wfb(r), len(r.notes), _grid_total(r)] for r in outs1],
+           [int(x) for x in extra1]]
+    _RESULT_WIRE[_case_key(case)] = json.dumps([nsio.to_wire(r, tfun=_fcode, qfun=lambda q: 0) for r in outs1],
+                                               separators=(',', ':'))
+    return [exc1 or 'OK', mutated or mutated2, same, alias, wfp, len(outs1), [pred, obs]]
 
 
-def model_input(case):
+# ---------------------------------------------------------------------------
+# model side (coq/Run/C11.v)
+# ---------------------------------------------------------------------------
+STATUS = {'OK': 0, 'ValueError': 1, 'QuantizationStatusError': 2, 'InvalidTimeAdjustmentError': 3,
+          'RectifyBeatsError': 4, 'ZeroDivisionError': 5, 'KeyError': 6}
+_RESULT_WIRE = {}
+_EVENT_FIELDS = ('tempos', 'time_signatures', 'key_signatures', 'text_annotations', 'control_changes',
+                 'pitch_bends', 'section_annotations')
+
+
+def _case_key(case):
+    return hashlib.sha1(json.dumps(case, sort_keys=True, default=str).encode()).hexdigest()
+
+
+def _fcode(x):
+    """Order-preserving integer image of a finite double (+0.0 and -0.0 both 0): the Coq predicate only
+    compares times with each other and with 0, so it can be evaluated on codes of times that are on no grid."""
+    b = struct.unpack('<q', struct.pack('<d', float(x)))[0]
+    return b if b >= 0 else -(b & 0x7FFFFFFFFFFFFFFF)
+
+
+def _py_wfb(r):
+    """Model/Wf.v wfb, in Python, on a real NoteSequence (independent of _wf_problems: used only to tie the
+    Coq predicate to what is measured)."""
+    if r.total_time < 0:
+        return 0
+    for n in r.notes:
+        if not (0 <= n.start_time <= n.end_time <= r.total_time):
+            return 0
+    for f in _EVENT_FIELDS:
+        for e in getattr(r, f):
+            if e.time < 0:
+                return 0
+    return 1
+
+
+def _py_qwfb(r):
+    for n in r.notes:
+        if not (0 <= n.quantized_start_step <= n.quantized_end_step <= r.total_quantized_steps):
+            return 0
+    for c in r.control_changes:
+        if c.quantized_step < 0:
+            return 0
+    for a in r.text_annotations:
+        if a.quantized_step < 0:
+            return 0
+    return 1
+
+
+def _grid_total(r):
+    try:
+        return nsio.f2t(r.total_time)
+    except nsio.OffGrid:
+        return -1
+
+
+def _flat_ids(d):
+    ids = []
+    for g in d.get('groups', []) if d.get('meta') else []:
+        ids.extend(list(g[0]) * g[1])
+    return ids
+
+
+def _model_request(case):
+    """The operation dispatched to the imported Gallina model, or None (quantizers: float model, see C01;
+    rectify and fractional linear maps: float arithmetic, see C13)."""
+    op = case['op']
+    args = case['input']['args']
+    descs = case['input']['seqs']
+    if case['input'].get('alias'):
+        descs = [descs[0]] * len(descs)
+    try:
+        ws = [nsio.to_wire(nsio.to_proto(d)) for d in descs]
+    except nsio.OffGrid:
+        return None
+    w = ws[0]
+    if op == 'shift':
+        return [10, w, args[0] if args[0] is not None else 0]
+    if op == 'stretch':
+        return [11, w, args[0], 1 << args[1]]
+    if op == 'trim':
+        return [12, w, args[0], args[1]]
+    if op == 'extract':
+        return [13, w, args[0], args[1]]
+    if op == 'extract_many':
+        return [14, w, list(args[0])]
+    if op == 'split_hop':
+        return [15, w, args[0], int(bool(args[1]))]
+    if op == 'split_list':
+        return [16, w, list(args[0]), int(bool(args[1]))]
+    if op == 'split_time_changes':
+        return [17, w, int(bool(args[0]))]
+    if op == 'split_silence':
+        return [18, w, args[0]]
+    if op == 'transpose':
+        if any(t[3] == 1 and t[2] not in CHORDS for t in descs[0].get('texts', [])) and args[3]:
+            return None            # ChordSymbolError path: chord grammar is C10's subject
+        return [19, w, args[0], args[1], args[2]]
+    if op == 'sustain':
+        return [20, w, args[0]]
+    if op == 'concatenate':
+        return [21, ws, list(args[0]) if args[0] else []]
+    if op == 'merge':
+        return [22, ws]
+    if op == 'repeat':
+        return [23, w, args[0], [args[1]] if args[1] else []]
+    if op == 'remove_redundant':
+        return [24, w]
+    if op == 'expand':
+        d = descs[0]
+        has = int(bool(d.get('meta') and d.get('groups')))
+        return [25, w, has, _flat_ids(d)]
+    if op == 'adjust':
+        spec = args[0]
+        md = [args[1]] if args[1] else []
+        if spec[0] == 'lin':
+            if spec[2] != 0:
+                return None
+            return [26, w, [1, spec[1], spec[3]], md]
+        if spec[0] == 'neg':
+            return [26, w, [2, 1000 << nsio.TICK_BITS, 0], md]
+        if spec[0] == 'flip':
+            return [26, w, [3, spec[1], 0], md]
+        if spec[0] == 'const':
+            return [26, w, [4, spec[1], 0], md]
+        if spec[0] == 'pw':
+            return [26, w, [5, spec[1], 0], md]
     return None
 
 
+def model_input(case):
+    key = _case_key(case)
+    wires = _RESULT_WIRE.pop(key, None)
+    if wires is not None:
+        wires = json.loads(wires)
+    else:                                  # replay / shrinking: run the real operation again
+        try:
+            outs, _ = _call(case['op'], _build(case) if not case['input'].get('alias')
+                            else [_build(case)[0]] * len(case['input']['seqs']), case['input']['args'])
+        except Exception:  # noqa
+            outs = []
+        wires = [nsio.to_wire(r, tfun=_fcode, qfun=lambda q: 0) for r in outs]
+    reqs = [[1, wires]]
+    m = _model_request(case)
+    if m is not None:
+        reqs.append(m)
+    return [99, reqs]
+
+
 def model_output(case, out):
-    return out
+    pred = [[int(a), int(b)] for a, b in out[0]]
+    obs = None
+    if len(out) > 1:
+        o = out[1]
+        if o and o[0] == -1000:
+            obs = ['MODEL-ERR', o]
+        else:
+            obs = [o[0], [[int(x[0]), int(x[1]), int(x[2])] for x in o[1]], [int(x) for x in o[2]]]
+    return [pred, obs]
+
+
+def equal(case, io, mo):
+    """Correspondence: (1) Coq wfb/qwfb on the real results == the Python predicate on them;
+    (2) model of the operation: same status, same number of results, per result the same wf verdict,
+    note count and total_time (total_time only when the real one is on the tick grid)."""
+    if not isinstance(io, list) or len(io) != 7:
+        return False
+    pred, obs = io[6]
+    if pred != mo[0]:
+        return False
+    m = mo[1]
+    if m is None:
+        return True
+    if obs[0] != m[0] or len(obs[1]) != len(m[1]):
+        return False
+    for a, b in zip(obs[1], m[1]):
+        if a[0] != b[0] or a[1] != b[1]:
+            return False
+        if a[2] != -1 and a[2] != b[2]:
+            return False
+    if case['op'] in ('transpose', 'adjust') and obs[0] == 0 and obs[2] != m[2]:
+        return False
+    return True
 
 
 EXPECTED_EXC = {
@@ -269,9 +479,9 @@ EXPECTED_EXC = {
 
 
 def oracle(case, io):
-    if not isinstance(io, list) or len(io) != 6 or io[0] == 'HARNESS-EXC':
+    if not isinstance(io, list) or len(io) != 7 or io[0] == 'HARNESS-EXC':
         return {'kind': 'harness-exception', 'detail': str(io)[:300]}
-    status, mutated, same, alias, wfp, _ = io
+    status, mutated, same, alias, wfp, _, _ = io
     op = case['op']
     if mutated:
         return {'kind': 'argument-mutated', 'op': op, 'status': status}
@@ -298,22 +508,35 @@ def _quantized(rng, d):
     return d
 
 
+def _negative(rng, d):
+    """Not well-formed on purpose (an event before time 0): drives the quantizers into NegativeTimeError."""
+    d = copy.deepcopy(d)
+    k = rng.random()
+    if k < 0.5 or not d['notes']:
+        d['ccs'] = list(d['ccs']) + [[-rng.randint(1, 4) * T, 0, 64, 0, 0, 0, 0]]
+    else:
+        d['notes'][0][2] = -rng.randint(1, 4) * T
+    return d
+
+
 def _wfdesc(rng, **kw):
     d = nsio.gen_desc(rng, wf=True, **kw)
     # well-formed: total_time covers every note (gen_desc guarantees), no negative times
     return d
 
 
-def _groups(rng, d):
+def _groups(rng, d, sort=True, unknown_id=False):
     ids = sorted(set(s[1] for s in d.get('sects', [])))
     if not ids or not d.get('meta'):
         return d
     d = dict(d)
     d['groups'] = [[[rng.choice(ids) for _ in range(rng.randint(1, 2))], rng.randint(1, 2)]
                    for _ in range(rng.randint(1, 2))]
-    # expand_section_groups expects annotations in time order and the first at the start
-    sects = sorted(d['sects'])
-    d['sects'] = sects
+    if unknown_id:
+        d['groups'][-1][0].append(max(ids) + 1)      # KeyError: a group names a section nobody annotated
+    if sort:
+        # expand_section_groups expects annotations in time order and the first at the start
+        d['sects'] = sorted(d['sects'])
     return d
 
 
@@ -322,16 +545,21 @@ def gen_case(rng, op=None):
     d = _wfdesc(rng, max_notes=rng.choice([3, 8, 14]), max_events=rng.choice([1, 3]))
     total = d['total']
     raising = rng.random() < 0.2
+    if op != 'expand' and rng.random() < 0.3:
+        d = _groups(rng, d, sort=False)          # section groups present in the argument of every operation
     seqs = [d]
     alias = False
     if op in ('trim', 'extract'):
         a = rng.randint(0, 12) * T
         b = a + rng.randint(0, 30) * T
         if raising:
-            if rng.random() < 0.5:
+            r = rng.random()
+            if r < 0.4:
                 seqs = [_quantized(rng, d)]
-            else:
+            elif r < 0.8:
                 a = total + rng.randint(1, 4) * T; b = a + T
+            else:
+                a, b = b + T, a                   # end before start: "Split times must be sorted"
         args = [a, b]
     elif op == 'extract_many':
         ts = sorted(rng.randint(0, 40) * T for _ in range(rng.randint(2, 5)))
@@ -374,6 +602,11 @@ def gen_case(rng, op=None):
             seqs = [_quantized(rng, d)]
     elif op == 'transpose':
         args = [rng.randint(-30, 30), rng.choice([0, 21, 40]), rng.choice([127, 108, 80]), rng.random() < 0.7]
+        if raising and rng.random() < 0.5:
+            d2 = dict(d)                          # ChordSymbolError: a chord symbol outside the grammar
+            d2['texts'] = list(d['texts']) + [[rng.randint(0, 40) * T, 0, 'Zzz#', 1]]
+            seqs = [d2]
+            args[3] = True
     elif op == 'quantize_rel':
         args = [rng.choice([1, 2, 4, 12, 24])]
         if not raising:
@@ -385,12 +618,21 @@ def gen_case(rng, op=None):
             if d2['tempos'] and rng.random() < 0.8:
                 d2['tempos'] = [[0, d2['tempos'][0][1]]]
             seqs = [d2]
-        elif rng.random() < 0.3:
-            seqs = [_quantized(rng, d)]
+        else:
+            r = rng.random()
+            if r < 0.25:
+                seqs = [_quantized(rng, d)]
+            elif r < 0.5:                         # BadTimeSignatureError: denominator not a power of two / numerator 0
+                d2 = dict(d)
+                d2['tempos'] = d['tempos'][:1]
+                d2['tsigs'] = [[0, rng.choice([0, 3, 4]), rng.choice([3, 6, 4])]]
+                seqs = [d2]
+            elif r < 0.7:                         # NegativeTimeError (input outside the quantifier: only the
+                seqs = [_negative(rng, d)]        # non-mutation clauses apply)
     elif op == 'quantize_abs':
         args = [rng.choice([1, 4, 10, 31, 100])]
         if raising:
-            seqs = [_quantized(rng, d)]
+            seqs = [_quantized(rng, d) if rng.random() < 0.5 else _negative(rng, d)]
     elif op == 'sustain':
         args = [rng.choice([64, 64, 64, 66])]
         if raising:
@@ -404,10 +646,13 @@ def gen_case(rng, op=None):
             if r < 0.4:
                 durs = [s['total'] + rng.randint(0, 3) * T for s in seqs]
             if raising:
-                if rng.random() < 0.5:
+                r = rng.random()
+                if r < 0.4:
                     durs = [s['total'] for s in seqs] + [T]
-                else:
+                elif r < 0.8:
                     durs = [max(0, s['total'] - T) for s in seqs]
+                else:                             # QuantizationStatusError from the shift of a later piece
+                    seqs = seqs + [_quantized(rng, _wfdesc(rng, max_notes=3, max_events=1))]
             if rng.random() < 0.2:
                 alias = True
         args = [durs]
@@ -416,9 +661,30 @@ def gen_case(rng, op=None):
         sd = rng.choice([None, None, total + rng.randint(0, 3) * T])
         if total == 0 and not sd:
             sd = T
+        # never more than 8 copies (a sequence a few ticks long repeated to 15 s would ask for 2^38 copies)
+        dur = min(dur, 8 * (sd or total))
+        if raising:
+            r = rng.random()
+            if r < 0.3:
+                seqs = [_quantized(rng, d)]
+            elif r < 0.5:
+                dur = rng.choice([0, -T])         # ValueError: nothing to extract
+            elif r < 0.7 and total == 0:
+                sd = None                         # ZeroDivisionError
+            elif r < 0.85 and sd:
+                sd = max(T // 2, total // 2)      # ValueError: duration shorter than total_time
+                dur = min(dur, 8 * sd)
         args = [dur, sd]
     elif op == 'expand':
         seqs = [_groups(rng, d)]
+        if raising:
+            r = rng.random()
+            if r < 0.3:
+                seqs = [_quantized(rng, seqs[0])]
+            elif r < 0.6:
+                seqs = [_groups(rng, d, unknown_id=True)]
+            else:
+                seqs = [_groups(rng, d, sort=False)]   # annotations out of time order: ValueError
         args = []
     elif op == 'remove_redundant':
         args = []
@@ -462,6 +728,36 @@ def corpus():
     out.append({'op': 'sustain', 'input': {'alias': False, 'args': [64], 'seqs': [{
         'notes': [[60, 100, 0, 4 * T, 0, 0, 0, 0, 0, 0], [36, 100, 8 * T, 12 * T, 0, 0, 1, 0, 0, 0]],
         'ccs': [[T, 0, 64, 127, 0, 0, 0], [6 * T, 0, 64, 0, 0, 0, 0]], 'total': 12 * T, 'meta': 3}]}})
+    # tempo / time signature / key events stored OUT of time order (an in-place sort of the caller's fields is
+    # only visible on such inputs: seeded change C11-1), through every operation built on _extract_subsequences
+    unsorted = {'notes': [[60, 80, 0, 4 * T, 0, 0, 0, 0, 0, 0], [62, 80, 10 * T, 14 * T, 0, 0, 0, 0, 0, 0],
+                          [64, 80, 20 * T, 24 * T, 0, 0, 0, 0, 0, 0]],
+                'tempos': [[16 * T, 90 << nsio.QPM_BITS], [0, 120 << nsio.QPM_BITS]],
+                'tsigs': [[12 * T, 3, 4], [0, 4, 4]], 'ksigs': [[8 * T, 7, 0], [0, 0, 0]],
+                'texts': [[4 * T, 0, 'C', 1]], 'ccs': [[2 * T, 0, 64, 127, 0, 0, 0]],
+                'sects': [[0, 0], [12 * T, 1]], 'total': 24 * T, 'meta': 5, 'groups': [[[1, 0], 2]]}
+    for op, args in (('extract', [4 * T, 22 * T]), ('extract_many', [[0, 8 * T, 24 * T]]),
+                     ('split_hop', [8 * T, False]), ('split_list', [[6 * T, 13 * T], True]),
+                     ('split_time_changes', [False]), ('split_silence', [T]), ('repeat', [40 * T, None]),
+                     ('expand', []), ('remove_redundant', []), ('trim', [T, 20 * T])):
+        out.append({'op': op, 'input': {'alias': False, 'args': args, 'seqs': [copy.deepcopy(unsorted)]}})
+    # a drum note that ends after every pitched note (seeded change C11-2), transposed with and without deletions
+    drums = {'notes': [[60, 80, 0, 4 * T, 0, 0, 0, 0, 0, 0], [67, 80, 8 * T, 12 * T, 0, 0, 0, 0, 0, 0],
+                       [49, 100, 12 * T, 18 * T, 9, 0, 1, 0, 0, 0]],
+             'tempos': [[0, 120 << nsio.QPM_BITS]], 'total': 18 * T, 'meta': 7}
+    for args in ([2, 0, 127, True], [5, 60, 70, True], [0, 0, 127, False], [40, 0, 90, True]):
+        out.append({'op': 'transpose', 'input': {'alias': False, 'args': args, 'seqs': [copy.deepcopy(drums)]}})
+    out.append({'op': 'sustain', 'input': {'alias': False, 'args': [64], 'seqs': [copy.deepcopy(drums)]}})
+    # merge: a long sequence followed by a shorter one (fixed in /repo 0c555ce); the same object twice
+    short = {'notes': [[62, 80, 0, 2 * T, 0, 0, 0, 0, 0, 0]], 'total': 2 * T, 'meta': 8}
+    out.append({'op': 'merge', 'input': {'alias': False, 'args': [None], 'seqs': [copy.deepcopy(drums), short]}})
+    out.append({'op': 'concatenate', 'input': {'alias': True, 'args': [None],
+                                               'seqs': [copy.deepcopy(unsorted), copy.deepcopy(unsorted)]}})
+    # raising paths that the random stream reaches rarely
+    out.append({'op': 'repeat', 'input': {'alias': False, 'args': [4 * T, None],
+                                          'seqs': [{'tempos': [[0, 120 << nsio.QPM_BITS]], 'total': 0, 'meta': 9}]}})
+    bad = copy.deepcopy(unsorted); bad['groups'] = [[[0, 5], 1]]
+    out.append({'op': 'expand', 'input': {'alias': False, 'args': [], 'seqs': [bad]}})
     return out
 
 
